@@ -5,8 +5,10 @@ import (
 	"encoding/base64"
 	"encoding/json"
 	"fmt"
+	"math/big"
 	"sort"
 	"strconv"
+	"time"
 )
 
 // Val is a serialisable description of a Go value handed to the orda API. It can be
@@ -33,6 +35,12 @@ type TaggedStruct struct {
 	Name  string                 `json:"name"`
 	Count int                    `json:"count"`
 	Inner map[string]interface{} `json:"inner,omitempty"`
+}
+
+// StructWithTime contains a field whose type has its own JSON encoding.
+type StructWithTime struct {
+	At   time.Time `json:"at"`
+	Name string    `json:"name"`
 }
 
 // PlainStruct has no json tags.
@@ -179,6 +187,19 @@ func (v Val) Go() interface{} {
 		return a
 	case "bytearray":
 		return [3]byte{byte(v.U), byte(v.U >> 8), byte(v.U >> 16)}
+	case "time":
+		return time.Unix(v.I, 0).UTC()
+	case "*time":
+		t := time.Unix(v.I, 0).UTC()
+		return &t
+	case "intkeymap":
+		return map[int]string{1: v.S, 20: "b"}
+	case "rawjson":
+		return json.RawMessage(`{"r":[1,"x"],"s":"` + strconv.FormatInt(v.I, 10) + `"}`)
+	case "bigint":
+		return big.NewInt(v.I)
+	case "timestruct":
+		return StructWithTime{At: time.Unix(v.I, 0).UTC(), Name: v.S}
 	}
 	panic("sim.Val: unknown tag " + v.T)
 }
@@ -300,7 +321,18 @@ func toJSON(x interface{}) interface{} {
 	case PlainStruct:
 		return map[string]interface{}{"Alpha": t.Alpha, "Beta": t.Beta, "Gamma": toJSON(t.Gamma)}
 	}
-	panic(fmt.Sprintf("sim.toJSON: unexpected %T", x))
+	// every other type (types with their own JSON encoding such as time.Time, big.Int, json.RawMessage; maps
+	// with integer keys; structs that contain them): what encoding/json makes of it - that is what the
+	// operation carries to every other replica
+	b, err := json.Marshal(x)
+	if err != nil {
+		panic(fmt.Sprintf("sim.toJSON: unexpected %T: %v", x, err))
+	}
+	var out interface{}
+	if err := json.Unmarshal(b, &out); err != nil {
+		panic(fmt.Sprintf("sim.toJSON: %T: %v", x, err))
+	}
+	return out
 }
 
 // IsNil tells whether the API would see a nil interface value.
@@ -319,7 +351,7 @@ func (v Val) IsNullLike() bool {
 // IsContainer tells whether the value becomes a JSON object or array.
 func (v Val) IsContainer() bool {
 	switch v.T {
-	case "map", "slice", "nilslice", "strslice", "mapint", "tagged", "*tagged", "plain", "f64array", "bytearray":
+	case "map", "slice", "nilslice", "strslice", "mapint", "tagged", "*tagged", "plain", "f64array", "bytearray", "intkeymap", "rawjson", "timestruct":
 		return true
 	}
 	return false
